@@ -172,6 +172,9 @@ class Sim:
 
     def emit(self, s):
         self.out.append(s)
+        if len(self.out) > 100000:
+            # bindings taken from a log the model cannot follow (e.g. a broken library looping): give up, do not loop
+            raise ModelError("model output runaway")
 
     # harness mechanics -----------------------------------------------------
     def request_stop(self):
@@ -1192,7 +1195,71 @@ class TakeUntilStream(StreamModel):
         start_trigger_cleanup()
 
 
-STREAMS = {"probe": ProbeStream, "transform": TransformStream, "filter": FilterStream, "via_stream": ViaStream,
+class StopImmediatelyStream(StreamModel):
+    """doc: elements of the source; a stop request while next() is pending yields done at once (after asking the source
+    to stop), the abandoned next's value is dropped, its error is reported by cleanup(), and cleanup() waits for it."""
+
+    def __init__(self, sim, spec):
+        super().__init__(sim, spec)
+        self.src = build_stream(sim, spec["src"])
+        self.stop = Tok()
+        self.state = "not_started"
+        self.next_error = None
+        self.pending_cleanup = None
+
+    def next(self, env, k):
+        if env.tok.requested:
+            return k("d", None)
+        self.state = "active"
+        h = [None]
+
+        def on_stop():
+            h[0] = None
+            if self.state != "active":
+                return
+            self.state = "stopped"
+            self.stop.request()
+            k("d", None)
+
+        def on(ch, pack):
+            if self.state == "active":
+                self.state = "completed"
+                env.tok.unregister(h[0])
+                return k(ch, pack)
+            if ch == "e":
+                self.next_error = pack
+            if self.state == "stopped":
+                self.state = "completed"
+                return
+            # cleanup already requested and waiting for us
+            self.state = "completed"
+            self.pending_cleanup()
+
+        if env.tok.static_possible:
+            h[0] = env.tok.register(on_stop)
+        # the source's next() only sees the stream's own stop source
+        self.src.next(Env(self.stop, -1, 0, -1), on)
+
+    def cleanup(self, env, k):
+        def run():
+            def done(ch, pack):
+                if self.next_error is not None:
+                    e, self.next_error = self.next_error, None
+                    return k("e", e)
+                k(ch, pack)
+            # the wrapped cleanup receiver answers no queries
+            self.src.cleanup(Env(UnstoppableTok(), -1, 0, -1), done)
+
+        if self.state == "stopped":
+            self.state = "cleanup_requested"
+            self.pending_cleanup = run
+            return
+        if self.state == "not_started":
+            return k("d", None)
+        run()
+
+
+STREAMS = {"stop_immediately": StopImmediatelyStream, "probe": ProbeStream, "transform": TransformStream, "filter": FilterStream, "via_stream": ViaStream,
            "type_erase": TypeEraseStream, "take_until": TakeUntilStream}
 
 
